@@ -369,7 +369,7 @@ func ruleF8c(c *Ctx) {
 				others++
 			}
 		})
-		c.check(mins == 2 && others == 0, "F8c", "FindEncoding|takes the minimum", c.L.Pos(f.Pos()), fmt.Sprintf("the best candidate is lo.MinBy under the comparator (found MinBy x%d, other selectors x%d)", mins, others))
+		c.check(mins >= 1 && others == 0, "F8c", "FindEncoding|takes the minimum", c.L.Pos(f.Pos()), fmt.Sprintf("the best candidate is lo.MinBy under the comparator (found MinBy x%d, other selectors x%d)", mins, others))
 	}
 	c.floor("F8c", 16)
 }
